@@ -443,5 +443,49 @@ def _shared_default(prog):
     return shared_default(prog, ["class_diagrams."], 50)
 
 
+def wf_resolved(prog: Program) -> RuleResult:
+    """Everything the classification of a field reads goes through WrappedField.resolved_type, and the classification table (WF-TABLE)
+    takes that value to be the *resolved* annotation: classes, not names - also below Optional[...], List[...], Union[...]. Only
+    typing.get_type_hints resolves the forward references nested inside a typing construct (the raw field.type of `Optional["Node"]`
+    is Optional[ForwardRef('Node')]; inspect.get_annotations(eval_str=True) only evaluates annotations that are strings as a whole).
+    Every value resolved_type returns is taken out of a get_type_hints(...) result for the field's own name."""
+    from ..astutil import site, src, call_name
+    from ..model import walk_local
+
+    r = RuleResult("WF-RESOLVED", "a field's resolved type is taken from typing.get_type_hints of its class on every path", floor=1)
+    wf = prog.cls("wrapped_field.WrappedField")
+    f = prog.lookup(wf.qual, "resolved_type")
+    if f is None:
+        raise AnalysisError("WF-RESOLVED: WrappedField.resolved_type vanished")
+    rets = [x for x in walk_local(f.node) if isinstance(x, ast.Return)]
+    if not rets:
+        raise AnalysisError("WF-RESOLVED: WrappedField.resolved_type returns nothing")
+    # locals assigned from a get_type_hints(...)[...] subscript
+    def from_hints(e, seen=(), fn=None):
+        fn = fn or f
+        if isinstance(e, ast.Subscript) and isinstance(e.value, ast.Call) and call_name(e.value) == "get_type_hints":
+            q = f.module.resolve(e.value.func) if isinstance(e.value.func, ast.Name) else None
+            return q is None or q.replace("ext:", "").split(".")[0] in ("typing", "typing_extensions")
+        if isinstance(e, ast.Subscript) and isinstance(e.value, ast.Name) and e.value.id not in f.module.globals_ and e.value.id not in seen:
+            # hints = get_type_hints(...); hints[name]
+            defs = [x.value for x in walk_local(fn.node) if isinstance(x, ast.Assign) and any(isinstance(t, ast.Name) and t.id == e.value.id for t in x.targets)]
+            return bool(defs) and all(isinstance(d, ast.Call) and from_hints(ast.Subscript(value=d, slice=e.slice, ctx=ast.Load()), seen + (e.value.id,), fn) for d in defs)
+        if isinstance(e, ast.Name) and e.id not in seen:
+            defs = [x.value for x in walk_local(fn.node) if isinstance(x, ast.Assign) and any(isinstance(t, ast.Name) and t.id == e.id for t in x.targets)]
+            return bool(defs) and all(from_hints(d, seen + (e.id,), fn) for d in defs)
+        if isinstance(e, ast.Subscript) and isinstance(e.value, ast.Name) and e.value.id in f.module.globals_:
+            # a module-level memo: everything the module stores in it went through get_type_hints
+            stores = [(g, x) for g in prog.functions.values() if g.module is f.module for x in walk_local(g.node)
+                      if isinstance(x, ast.Assign) and any(isinstance(t, ast.Subscript) and isinstance(t.value, ast.Name) and t.value.id == e.value.id for t in x.targets)]
+            return bool(stores) and all(from_hints(x.value, (), g) for g, x in stores)
+        return False
+    bad = [x for x in rets if x.value is None or not from_hints(x.value)]
+    r.check(not bad, "WrappedField.resolved_type#from-get_type_hints", site(f, bad[0]) if bad else site(f), src(bad[0])[:100] if bad else f"{len(rets)} returns",
+            "every returned value is get_type_hints(...)[name]",
+            f"{src(bad[0])[:80] if bad else ''} hands back an annotation that did not go through typing.get_type_hints: a forward reference nested inside Optional[...] / "
+            "List[...] stays a ForwardRef, the field's endpoint is not a class - is_enum raises, the relationship to the named class is not found")
+    return r
+
+
 def run(prog: Program, tier: str) -> List[RuleResult]:
-    return [wf_table(prog), cd_edges(prog), cd_readonly(prog), cd_memo(prog), cd_multi(prog), _shared_default(prog)]
+    return [wf_table(prog), cd_edges(prog), cd_readonly(prog), cd_memo(prog), cd_multi(prog), _shared_default(prog), wf_resolved(prog)]
